@@ -56,7 +56,7 @@ UNITS += [
          functions=["commands::restore::RestorePlan::add_file (blob placement part: from `let file_idx` to the end)"],
          rewrites=[
              Rw("self.", "this.", count=None, why="statement-block unit: self -> parameter"),
-             Rw("for id in file.content.iter().flatten() {", "for id in it: vcontent(file).iter() {", why="Option<Vec<_>>::iter().flatten() -> slice of the content (empty if None); Verus for syntax"),
+             Rw("for id in file.content.iter().flatten() {", "let vcont = vcontent(file); for id in it: vcont.iter() {", why="Option<Vec<_>>::iter().flatten() -> slice of the content (empty if None), bound to a local so that a `continue` in the loop can be handled by R-forcontinue; Verus for syntax"),
              Rw(r"open_file\s*\.as_mut\(\)\s*\.is_some_and\(\|file\| id\.blob_matches_reader\(length, file\)\)", "vblob_matches_existing(&mut open_file, id, length)", regex=True,
                 why="comparison of the existing destination file with the blob: arbitrary boolean, false without a file"),
              Rw("let blob_location = this.r.entry((ie.pack, bl)).or_default();", "", why="BTreeMap entry API folded into the next rewrite"),
@@ -88,6 +88,7 @@ UNITS += [
 """,
          loops={1: """
             invariant
+                vcont@ == content_of(*file),
                 forall|k: int| 0 <= k < content_of(*file).len() ==> dlen(#[trigger] content_of(*file)[k]) >= 0,
                 this.names@.len() == old(this).names@.len() + 1, file_idx == old(this).names@.len(),
                 this.file_lengths@ == old(this).file_lengths@,
@@ -123,6 +124,7 @@ UNITS += [
              Rw("dest.remove_dir(entry.path())", "dest.remove_dir(entry.path(), Ghost(opts.delete), Ghost(dry_run))", why="LocalDestination::remove_dir -> effectful stub (precondition: deletion requested, no dry run)"),
              Rw("dest.remove_file(entry.path())", "dest.remove_file(entry.path(), Ghost(opts.delete), Ghost(dry_run))", why="LocalDestination::remove_file -> effectful stub (precondition: deletion requested, no dry run)"),
              Rw("additional_existing = ", "*additional_existing = ", count=None, why="captured variable -> &mut parameter"),
+             Rw("walker.skip_current_dir();", "walker.skip_current_dir(Ghost(entry.walk_is_dir@));", why="ghost argument: was the entry just yielded a directory of the walk? (precondition of the accurate walkdir contract)"),
          ],
          contract="""
     requires old(stats).dirs.additional < u64::MAX, old(stats).files.additional < u64::MAX,
